@@ -87,7 +87,8 @@ def via_middleware(bib, text):
     """SplitNameParts on an entry whose author list holds the name."""
     M = bib.model
     m = bib.middlewares
-    e = M.Entry("article", "k", [M.Field("author", [text]), M.Field("title", "t")], start_line=1, raw="@article{k}")
+    names = [text] if len(text) % 2 else ["Valid de Name, Jr, First", text, "Another Valid"]
+    e = M.Entry("article", "k", [M.Field("author", list(names)), M.Field("title", "t")], start_line=1, raw="@article{k}")
     lib = bib.Library([e])
     try:
         out = m.SplitNameParts(allow_inplace_modification=False).transform(lib)
@@ -96,14 +97,14 @@ def via_middleware(bib, text):
     b = out.blocks[0]
     if isinstance(b, M.MiddlewareErrorBlock):
         inner = b.ignore_error_block
-        keeps = isinstance(inner, M.Entry) and inner.key == "k" and inner["author"] == [text] and inner["title"] == "t"
+        keeps = isinstance(inner, M.Entry) and inner.key == "k" and inner["author"] == names and inner["title"] == "t"
         try:
             bib.write_string(out)
             writable = True
         except Exception:  # noqa
             writable = False
         return {"err": True, "keeps_entry": keeps, "writable": writable}
-    p = b["author"][0]
+    p = b["author"][0 if len(names) == 1 else 1]
     return {"err": False, "parts": {"first": list(p.first), "von": list(p.von), "last": list(p.last), "jr": list(p.jr)}}
 
 
